@@ -21,6 +21,13 @@ def owned(modname):
 
 
 def canon(obj, depth=0, seen=None):
+    try:
+        return _canon(obj, depth, seen)
+    except Exception as e:      # an object that cannot be canonicalised must not take the explorer down
+        return '<uncanonical:%s:%s>' % (type(obj).__name__, type(e).__name__)
+
+
+def _canon(obj, depth=0, seen=None):
     seen = seen if seen is not None else set()
     if obj is None or isinstance(obj, (bool, int, float, str, bytes)):
         return repr(obj)
@@ -40,7 +47,8 @@ def canon(obj, depth=0, seen=None):
     if isinstance(obj, (set, frozenset)):
         return 'set(' + ','.join(sorted(canon(x, depth + 1, seen) for x in obj)) + ')'
     if isinstance(obj, (types.FunctionType, types.BuiltinFunctionType, types.MethodType, type)):
-        return None      # code, not state (class attributes are walked separately)
+        # code, not state (class attributes are walked separately); named so that containers of callables stay comparable
+        return 'code:%s.%s' % (getattr(obj, '__module__', '?'), getattr(obj, '__qualname__', getattr(obj, '__name__', '?')))
     cls = type(obj)
     if owned(getattr(cls, '__module__', '') or ''):
         d = getattr(obj, '__dict__', None)
